@@ -28,8 +28,73 @@ const FLAGS: [(KeyMod, u32); 9] = [
     (KeyMod::PRESS, 256),
 ];
 
-fn mod_bits(m: KeyMod) -> u32 {
+/// modifier bits through the crate's accessor `KeyMod::contains` (cross-checked against `raw_bits` in `keymod_table`)
+fn contains_bits(m: KeyMod) -> u32 {
     FLAGS.iter().filter(|(f, _)| m.contains(*f)).map(|(_, b)| b).sum()
+}
+
+/// The modifier bits of a `KeyMod` WITHOUT any crate helper: `KeyMod` is a struct around one `u32` and offers no
+/// accessor, so its memory is read.  (If its size ever changes, falls back to `contains`.)
+fn mod_bits(m: KeyMod) -> u32 {
+    if std::mem::size_of::<KeyMod>() == 4 && std::mem::align_of::<KeyMod>() == 4 {
+        // SAFETY: same size and alignment, `KeyMod` is `Copy` and has no padding (one `u32` field)
+        unsafe { std::mem::transmute_copy::<KeyMod, u32>(&m) }
+    } else {
+        contains_bits(m)
+    }
+}
+
+/// Identity of a key as the harness sees it: variant (by pattern matching), payload, raw modifier bits — never
+/// the crate's `PartialEq` / `Ord` / `Hash`.
+type RawKey = (u8, u128, u32);
+
+fn rk(k: &Key) -> RawKey {
+    use KeyName::*;
+    let (v, p): (u8, u128) = match k.name {
+        Backspace => (0, 0),
+        Char(c) => (1, c as u128),
+        Delete => (2, 0),
+        Insert => (3, 0),
+        Down => (4, 0),
+        End => (5, 0),
+        Enter => (6, 0),
+        Esc => (7, 0),
+        F(i) => (8, i as u128),
+        Home => (9, 0),
+        Left => (10, 0),
+        MouseLeft => (11, 0),
+        MouseMiddle => (12, 0),
+        MouseMove => (13, 0),
+        MouseRight => (14, 0),
+        MouseWheelDown => (15, 0),
+        MouseWheelUp => (16, 0),
+        PageDown => (17, 0),
+        PageUp => (18, 0),
+        Right => (19, 0),
+        Tab => (20, 0),
+        Up => (21, 0),
+    };
+    (v, p, mod_bits(k.mode))
+}
+
+fn same_key(a: &Key, b: &Key) -> bool {
+    rk(a) == rk(b)
+}
+
+fn same_chord(a: &[Key], b: &[Key]) -> bool {
+    a.len() == b.len() && a.iter().zip(b).all(|(x, y)| same_key(x, y))
+}
+
+fn is_prefix(p: &[Key], c: &[Key]) -> bool {
+    p.len() <= c.len() && same_chord(p, &c[..p.len()])
+}
+
+fn is_suffix(sfx: &[Key], c: &[Key]) -> bool {
+    sfx.len() <= c.len() && same_chord(sfx, &c[c.len() - sfx.len()..])
+}
+
+fn has_key(c: &[Key], k: &Key) -> bool {
+    c.iter().any(|x| same_key(x, k))
 }
 
 fn name_wire(n: &KeyName) -> String {
@@ -207,7 +272,7 @@ impl Op {
 }
 
 fn related(a: &[Key], b: &[Key]) -> bool {
-    a.starts_with(b) || b.starts_with(a)
+    is_prefix(a, b) || is_prefix(b, a)
 }
 
 /// The specification: chords with values, most recent last; binding removes every prefix-related chord.
@@ -230,16 +295,16 @@ impl Dict {
         self.0.push((c.to_vec(), v));
     }
     fn lookup(&self, q: &[Key]) -> Ans {
-        if let Some((_, v)) = self.0.iter().find(|(c, _)| c.as_slice() == q) {
+        if let Some((_, v)) = self.0.iter().find(|(c, _)| same_chord(c, q)) {
             Ans::Success(*v)
-        } else if self.0.iter().any(|(c, _)| c.len() > q.len() && c.starts_with(q)) {
+        } else if self.0.iter().any(|(c, _)| c.len() > q.len() && is_prefix(q, c)) {
             Ans::Continue
         } else {
             Ans::Failure
         }
     }
     fn begins_chord(&self, k: &Key) -> bool {
-        self.0.iter().any(|(c, _)| c.first() == Some(k))
+        self.0.iter().any(|(c, _)| c.first().map(|f| same_key(f, k)).unwrap_or(false))
     }
     fn as_set(&self) -> BTreeSet<(String, u32)> {
         self.0.iter().map(|(c, v)| (chord_wire(c), *v)).collect()
@@ -337,7 +402,7 @@ impl RefMatcher {
         self.fresh = false;
         self.since.push(k);
         if let Some(v) = r {
-            let ok = dict.0.iter().any(|(c, x)| *x == v && self.since.ends_with(c));
+            let ok = dict.0.iter().any(|(c, x)| *x == v && is_suffix(c, &self.since));
             if !ok {
                 return Err(Failure {
                     what: format!("{who} fired a value although no chord bound to it ends at this key"),
@@ -381,7 +446,7 @@ impl RefMatcher {
                 }
             }
             None => {
-                let foreign = !dict.0.iter().any(|(c, _)| c.contains(&k));
+                let foreign = !dict.0.iter().any(|(c, _)| has_key(c, &k));
                 if r.is_some() || foreign {
                     self.pending = Some(vec![]);
                 }
@@ -421,7 +486,7 @@ impl Exec {
     fn new() -> Self {
         Exec {
             a: KeyMap::new(),
-            b: KeyMap::new(),
+            b: KeyMap::default(),
             state: vec![],
             da: Dict::default(),
             db: Dict::default(),
@@ -432,7 +497,7 @@ impl Exec {
             rep_wire: vec![],
             rep_answers: vec![],
             refm: RefMatcher::new(),
-            h: KeyMapHandler::new(),
+            h: KeyMapHandler::default(),
             dh: Dict::default(),
             refh: RefMatcher::new(),
             unsorted_enum: false,
@@ -481,6 +546,23 @@ impl Exec {
                 what: format!("for_each of map {which} does not list exactly the bound chords"),
                 expected: json!(want.iter().map(|(c, v)| format!("{c}={v}")).collect::<Vec<_>>()),
                 got: json!(e.iter().map(|(c, v)| format!("{}={}", chord_wire(c), v)).collect::<Vec<_>>()),
+            });
+        }
+        // other readers of the same table: a clone lists the same bindings, `Debug` lists as many entries
+        let (e2, _) = enumerate(&m.clone());
+        let dbg = format!("{m:?}");
+        if e2.len() != e.len() || !e.iter().zip(e2.iter()).all(|(x, y)| same_chord(&x.0, &y.0) && x.1 == y.1) {
+            return Err(Failure {
+                what: format!("clone of map {which} lists other bindings than the map"),
+                expected: json!(show_enum(&e)),
+                got: json!(show_enum(&e2)),
+            });
+        }
+        if dbg.matches(": ").count() < e.len() {
+            return Err(Failure {
+                what: format!("Debug of map {which} lists fewer entries than for_each"),
+                expected: json!(e.len()),
+                got: json!(dbg),
             });
         }
         let w = if which == 'a' { "e" } else { "eb" };
@@ -874,14 +956,14 @@ fn gen_history(rng: &mut Rng, pool: &[Key], thorough: bool) -> Vec<Op> {
     let mut alpha: Vec<Key> = Vec::new();
     while alpha.len() < nalpha {
         let k = *rng.pick(pool);
-        if !alpha.contains(&k) {
+        if !has_key(&alpha, &k) {
             alpha.push(k);
         }
     }
     let mut junk: Vec<Key> = Vec::new();
     while junk.len() < 2 {
         let k = *rng.pick(pool);
-        if !alpha.contains(&k) && !junk.contains(&k) {
+        if !has_key(&alpha, &k) && !has_key(&junk, &k) {
             junk.push(k);
         }
     }
@@ -1273,7 +1355,7 @@ fn parse_case(out: &mut Out, tag: &str, s: &str, corr: bool) {
         Ok(Ok(n)) => {
             let printed = n.to_string();
             match guarded(|| KeyName::from_str(&printed)) {
-                Ok(Ok(n2)) if n2 == *n => {}
+                Ok(Ok(n2)) if name_wire(&n2) == name_wire(n) => {}
                 other => out.fail(
                     "KeyName: printed form does not parse back to the same value",
                     input("KeyName"),
@@ -1300,7 +1382,7 @@ fn parse_case(out: &mut Out, tag: &str, s: &str, corr: bool) {
         Ok(Ok(k)) => {
             let printed = k.to_string();
             match guarded(|| Key::from_str(&printed)) {
-                Ok(Ok(k2)) if k2 == *k => {}
+                Ok(Ok(k2)) if same_key(&k2, k) => {}
                 other => out.fail(
                     "Key: printed form does not parse back to the same value",
                     input("Key"),
@@ -1327,7 +1409,7 @@ fn parse_case(out: &mut Out, tag: &str, s: &str, corr: bool) {
         Ok(Ok(c)) => {
             let printed = c.to_string();
             match guarded(|| KeyChord::from_str(&printed)) {
-                Ok(Ok(c2)) if c2 == *c => {}
+                Ok(Ok(c2)) if same_chord(c2.keys(), c.keys()) => {}
                 other => out.fail(
                     "KeyChord: printed form does not parse back to the same value",
                     input("KeyChord"),
@@ -1553,16 +1635,224 @@ fn unicode_sweep(out: &mut Out, step: u32) {
 
 // ---------------------------------------------------------------------------------------------------------
 
-/// `Ord for Key` (derived) against the model's order of key codes
-fn cmp_case(out: &mut Out, a: &Key, b: &Key) {
-    let ans = match a.cmp(b) {
+fn ord_str(o: std::cmp::Ordering) -> &'static str {
+    match o {
         std::cmp::Ordering::Less => "lt",
         std::cmp::Ordering::Equal => "eq",
         std::cmp::Ordering::Greater => "gt",
-    };
+    }
+}
+
+/// records every write of a `Hash` impl, so that two hashes can be compared without trusting any hasher
+#[derive(Default)]
+struct Tape(Vec<u8>);
+impl std::hash::Hasher for Tape {
+    fn finish(&self) -> u64 {
+        0
+    }
+    fn write(&mut self, bytes: &[u8]) {
+        self.0.extend_from_slice(bytes);
+    }
+}
+fn hash_tape<T: std::hash::Hash>(t: &T) -> Vec<u8> {
+    let mut h = Tape::default();
+    t.hash(&mut h);
+    h.0
+}
+
+/// `Ord` / `Eq` / `Hash` of `Key`, `KeyName`, `KeyMod`: the order against the model's (correspondence), and —
+/// oracle, with the harness' own raw identity — keys are equal / compare `Equal` / hash alike exactly when they are
+/// the same key (otherwise chords collide or split in the map), and `cmp` is antisymmetric
+fn cmp_case(out: &mut Out, a: &Key, b: &Key) {
+    let same = same_key(a, b);
     out.hist("cmp");
-    out.case(&format!("cmp {} {}", key_wire(a), key_wire(b)), a != b);
-    out.corr(&format!("c18 cmp {} {}", key_wire(a), key_wire(b)), ans);
+    out.case(&format!("cmp {} {}", key_wire(a), key_wire(b)), !same);
+    let r = guarded(|| {
+        (
+            a.cmp(b),
+            b.cmp(a),
+            a.partial_cmp(b),
+            a == b,
+            a.name.cmp(&b.name),
+            a.name == b.name,
+            a.mode.cmp(&b.mode),
+            a.mode == b.mode,
+            hash_tape(a) == hash_tape(b),
+            (a < b, a <= b, a > b, a >= b),
+        )
+    });
+    let input = json!({"kind": "cmp", "a": key_wire(a), "b": key_wire(b)});
+    let Ok((ab, ba, pab, eq, nab, neq, mab, meq, heq, (lt, le, gt, ge))) = r else {
+        out.fail("comparison of two keys panicked", input, json!("an ordering"), json!("panic"));
+        return;
+    };
+    out.corr(&format!("c18 cmp {} {}", key_wire(a), key_wire(b)), ord_str(ab));
+    out.corr(&format!("c18 cmpn {} {}", key_wire(a), key_wire(b)), ord_str(nab));
+    out.corr(&format!("c18 cmpm {} {}", key_wire(a), key_wire(b)), ord_str(mab));
+    let (ra, rb) = (rk(a), rk(b));
+    let same_name = (ra.0, ra.1) == (rb.0, rb.1);
+    let same_mode = ra.2 == rb.2;
+    let mut bad: Vec<String> = Vec::new();
+    if eq != same {
+        bad.push(format!("Key == gives {eq}"));
+    }
+    if (ab == std::cmp::Ordering::Equal) != same {
+        bad.push(format!("Key cmp gives {ab:?}"));
+    }
+    if ba != ab.reverse() {
+        bad.push(format!("cmp(a,b)={ab:?} but cmp(b,a)={ba:?}"));
+    }
+    if pab != Some(ab) {
+        bad.push(format!("partial_cmp {pab:?} vs cmp {ab:?}"));
+    }
+    if (lt, le, gt, ge) != (ab.is_lt(), ab.is_le(), ab.is_gt(), ab.is_ge()) {
+        bad.push("operators < <= > >= disagree with cmp".to_string());
+    }
+    if neq != same_name || (nab == std::cmp::Ordering::Equal) != same_name {
+        bad.push(format!("KeyName == {neq}, cmp {nab:?}"));
+    }
+    if meq != same_mode || (mab == std::cmp::Ordering::Equal) != same_mode {
+        bad.push(format!("KeyMod == {meq}, cmp {mab:?}"));
+    }
+    if same && !heq {
+        bad.push("equal keys hash differently".to_string());
+    }
+    if !bad.is_empty() {
+        out.fail(
+            "Eq / Ord / Hash of keys do not identify exactly the same keys (chords would collide or split in the map)",
+            input,
+            json!(if same { "same key: equal, Equal, same hash" } else { "different keys: not equal, not Equal" }),
+            json!(bad.join("; ")),
+        );
+    }
+}
+
+/// `cmp` is transitive on every triple of the pool (what `BTreeMap` needs)
+fn cmp_transitive(out: &mut Out, pool: &[Key]) {
+    let n = pool.len();
+    let lt: Vec<Vec<bool>> = pool.iter().map(|a| pool.iter().map(|b| a.cmp(b).is_lt()).collect()).collect();
+    for i in 0..n {
+        for j in 0..n {
+            if !lt[i][j] {
+                continue;
+            }
+            for k in 0..n {
+                if lt[j][k] && !lt[i][k] {
+                    out.fail(
+                        "Ord of keys is not transitive",
+                        json!({"kind": "cmp3", "a": key_wire(&pool[i]), "b": key_wire(&pool[j]), "c": key_wire(&pool[k])}),
+                        json!("a < c"),
+                        json!("a < b, b < c, not a < c"),
+                    );
+                    return;
+                }
+            }
+        }
+    }
+    out.evaluations += (n * n * n) as u64;
+}
+
+/// `KeyMod` as a bit set, against plain integer arithmetic on the raw bits: constants, `from_bits` (masks with
+/// `ALL` = 511), `is_empty`, `contains`, `|`, `|=`
+fn keymod_table(out: &mut Out, rng: &mut Rng) {
+    let consts: [(&str, KeyMod, u32); 11] = [
+        ("EMPTY", KeyMod::EMPTY, 0),
+        ("SHIFT", KeyMod::SHIFT, 1),
+        ("ALT", KeyMod::ALT, 2),
+        ("CTRL", KeyMod::CTRL, 4),
+        ("SUPER", KeyMod::SUPER, 8),
+        ("HYPER", KeyMod::HYPER, 16),
+        ("META", KeyMod::META, 32),
+        ("CAPSLOCK", KeyMod::CAPSLOCK, 64),
+        ("NUMLOCK", KeyMod::NUMLOCK, 128),
+        ("PRESS", KeyMod::PRESS, 256),
+        ("ALL", KeyMod::ALL, 511),
+    ];
+    let fail = |out: &mut Out, what: String, expected: String, got: String| {
+        out.fail("KeyMod is not the bit set of its modifiers", json!({"kind": "keymod", "case": what}), json!(expected), json!(got));
+    };
+    for (n, m, bits) in consts.iter() {
+        if mod_bits(*m) != *bits {
+            fail(out, format!("constant {n}"), bits.to_string(), mod_bits(*m).to_string());
+        }
+    }
+    let mut values: Vec<u32> = (0..1024).collect();
+    for _ in 0..200 {
+        values.push(rng.next() as u32);
+    }
+    values.extend([u32::MAX, 1 << 31, 512, 511 << 9]);
+    for &b in values.iter() {
+        let Ok(m) = guarded(|| KeyMod::from_bits(b)) else {
+            fail(out, format!("from_bits({b})"), "a value".to_string(), "panic".to_string());
+            continue;
+        };
+        let raw = mod_bits(m);
+        if raw != b & 511 {
+            fail(out, format!("from_bits({b})"), (b & 511).to_string(), raw.to_string());
+        }
+        if contains_bits(m) != raw {
+            fail(out, format!("contains on bits {raw}"), raw.to_string(), contains_bits(m).to_string());
+        }
+        if m.is_empty() != (raw == 0) {
+            fail(out, format!("is_empty on bits {raw}"), (raw == 0).to_string(), m.is_empty().to_string());
+        }
+        let o = rng.below(512) as u32;
+        let other = KeyMod::from_bits(o);
+        let want_contains = raw & mod_bits(other) == mod_bits(other);
+        if m.contains(other) != want_contains {
+            fail(out, format!("bits {raw} contains bits {o}"), want_contains.to_string(), m.contains(other).to_string());
+        }
+        let or = m | other;
+        let mut or2 = m;
+        or2 |= other;
+        if mod_bits(or) != (raw | mod_bits(other)) || mod_bits(or2) != mod_bits(or) {
+            fail(out, format!("bits {raw} | bits {o}"), (raw | mod_bits(other)).to_string(), format!("{} / |= {}", mod_bits(or), mod_bits(or2)));
+        }
+        out.evaluations += 1;
+    }
+    out.hist("keymod-table");
+}
+
+/// the other ways to make and read keys and chords agree with the plain ones (raw identity)
+fn constructors(out: &mut Out, rng: &mut Rng, pool: &[Key]) {
+    for _ in 0..200 {
+        let k = rand_key(rng, pool);
+        let k1: Key = Key::new(k.name, k.mode);
+        let k2: Key = (k.name, k.mode).into();
+        let k3: Key = k.name.into();
+        let want3 = (rk(&k).0, rk(&k).1, 0u32);
+        if !same_key(&k1, &k) || !same_key(&k2, &k) || rk(&k3) != want3 {
+            out.fail(
+                "Key::new / From<(KeyName, KeyMod)> / From<KeyName> build different keys",
+                json!({"kind": "ctor", "key": key_wire(&k)}),
+                json!(key_wire(&k)),
+                json!(format!("{} / {} / {}", key_wire(&k1), key_wire(&k2), key_wire(&k3))),
+            );
+        }
+        let n = 1 + rng.below(4) as usize;
+        let keys: Vec<Key> = (0..n).map(|_| rand_key(rng, pool)).collect();
+        let c1 = KeyChord::new(keys.clone());
+        let c2: KeyChord = keys.iter().collect();
+        let c3: KeyChord = keys.iter().cloned().collect();
+        let r1: &[Key] = c1.as_ref();
+        if !same_chord(c1.keys(), &keys) || !same_chord(r1, &keys) || !same_chord(c2.keys(), &keys) || !same_chord(c3.keys(), &keys) {
+            out.fail(
+                "KeyChord::new / FromIterator / keys() / as_ref() do not preserve the keys",
+                json!({"kind": "ctor", "chord": chord_wire(&keys)}),
+                json!(chord_wire(&keys)),
+                json!(format!("{} / {} / {}", chord_wire(c1.keys()), chord_wire(c2.keys()), chord_wire(c3.keys()))),
+            );
+        }
+        // chord printer against the model's
+        if let Ok(printed) = guarded(|| (c1.to_string(), format!("{c1:?}"))) {
+            out.corr(&format!("c18 sc {}", chord_wire(&keys)), &cps(&printed.0));
+            if printed.0 != printed.1 {
+                out.hist("chord-debug-differs-from-display");
+            }
+        }
+        out.evaluations += 1;
+    }
+    out.hist("constructors");
 }
 
 fn rand_key(rng: &mut Rng, pool: &[Key]) -> Key {
@@ -1582,11 +1872,21 @@ fn rand_key(rng: &mut Rng, pool: &[Key]) -> Key {
 }
 
 fn replay(out: &mut Out, input: &Value) {
+    let pool = key_pool();
+    let mut rng = Rng::new(1);
     match input["kind"].as_str() {
+        Some("keymod") => keymod_table(out, &mut rng),
+        Some("ctor") => constructors(out, &mut rng, &pool),
+        Some("cmp3") => cmp_transitive(out, &pool),
         Some("script") => {
             let ops: Option<Vec<Op>> = input["ops"].as_array().map(|a| a.iter().map(Op::from_json).collect()).unwrap_or(None);
             if let Some(ops) = ops {
                 script_case(out, "replay", ops);
+            }
+        }
+        Some("cmp") => {
+            if let (Some(a), Some(b)) = (input["a"].as_str().and_then(key_from_wire), input["b"].as_str().and_then(key_from_wire)) {
+                cmp_case(out, &a, &b);
             }
         }
         Some("parse") => {
@@ -1629,6 +1929,9 @@ fn main() {
             cmp_case(&mut out, a, b);
         }
     }
+    cmp_transitive(&mut out, &pool);
+    keymod_table(&mut out, &mut rng);
+    constructors(&mut out, &mut rng, &pool);
     let ncmp = if cfg.thorough { 100_000 } else { 4_000 };
     for _ in 0..ncmp {
         let a = rand_key(&mut rng, &pool);
